@@ -135,7 +135,7 @@ def systematic(rng, tier):
         out.append({"kind": "term", "A": A, "B": B, "t": t, "fam": "single:" + lab})
     pairs = [(s1, s2) for s1 in SHAPES for s2 in SHAPES if s1[1] in ("t", "c")]
     if tier == "quick":
-        pairs = rng.sample(pairs, 260)
+        pairs = rng.sample(pairs, 400)
     for (l1, n1, m1), (l2, n2, m2) in pairs:
         A = list(rng.choice(A_POOL))
         B = fresh_B(rng, A, [C_TBL])
@@ -165,10 +165,12 @@ def rand_wrapper(g, rng, A, depth):
     k = rng.choice(["agg", "agg", "analytic", "analytic", "extract", "period", "nested", "subq", "insub", "cmpsub", "exists"])
     al = g.alias()
     if k == "agg":
-        return ["agg", rng.choice(["SUM", "COUNT", "MAX"]), [g.num(d)], [g.boolean(d) for _ in range(rng.choice([0, 1, 2]))], al]
+        # FILTER criteria are folded with & (Criterion.all): they must be Criterion instances
+        return ["agg", rng.choice(["SUM", "COUNT", "MAX"]), [g.num(d)],
+                [as_kind("c", g.boolean(d)) for _ in range(rng.choice([0, 1, 2]))], al]
     if k == "analytic":
         return ["analytic", rng.choice(["SUM", "RANK", "LAG"]), [g.num(d) for _ in range(rng.choice([0, 1]))],
-                [g.boolean(d) for _ in range(rng.choice([0, 0, 1]))], [g.num(d) for _ in range(rng.choice([0, 1, 2]))],
+                [as_kind("c", g.boolean(d)) for _ in range(rng.choice([0, 0, 1]))], [g.num(d) for _ in range(rng.choice([0, 1, 2]))],
                 [[g.num(d), rng.choice(["ASC", "DESC", None])] for _ in range(rng.choice([0, 1, 2]))], al]
     if k == "extract":
         return ["extract", rng.choice(["YEAR", "DAY"]), g.num(d), al]
